@@ -109,7 +109,8 @@ let cpr_pp (app : Crs.crs) =
 (* block value type: App->set_nonzeros(K->nnz) sizes App by ALL entries of K while its row
    pointers end at K->ptr[np]: with active_rows < n the nnz field disagrees with ptr[nrows]
    (vq::show_crs reports that as BADCRS nnz; the list-of-rows model has no such field) *)
-let show_app_block (kb : A.block A.gcrs) (app : Crs.crs) =
+let show_app_block ?(fixed=false) (kb : A.block A.gcrs) (app : Crs.crs) =
+  if fixed then show_crs ~sorted:true app else
   let np = nrows app in
   let extra = List.fold_left (+) 0 (List.mapi (fun i r -> if i >= np then List.length r else 0) kb.A.grows) in
   if not (Crs.wf sc app) then "BADCRS col-out-of-range"
@@ -226,7 +227,8 @@ let () =
   (* ---- CPR: the extracted set-up (Cpr.v) + Composite.cpr_apply; the pressure stage is an exact
      solve with the model's App (verified), the global stage dummy or spai0 (built from the
      sorted copy of K, like the residual) ---- *)
-  reg "cpr" (fun t -> let kind = t_s t in let bs = t_i t in let active = t_i t in let k = t_crs t in
+  (* fx = 1: the tree under test has the repaired block-valued init() (inactive columns skipped) *)
+  reg "cpr" (fun t -> let kind = t_s t in let bs = t_i t in let active = t_i t in let fx = t_i t <> 0 in let k = t_crs t in
     let n = nrows k in
     let junk = zeros (n + bs) in
     let ks = MatOps.sort_rows sc k in
@@ -240,8 +242,8 @@ let () =
       show_ops n ks ops (fun f -> Relax.spai0_apply sc mm f (zeros n)) ^ " " ^ show_crs ~sorted:true ops.Cpr.c_app
     | "block_dummy" ->
       let kb = A.to_gcrs (A.block_adapter sc bs (A.crs_view sc k)) in
-      let ops = Cpr.cprb_make sc bs (active / bs) kb junk in
-      show_ops n (A.unblock sc bs kb) ops (fun f -> f) ^ " " ^ show_app_block kb ops.Cpr.c_app
+      let ops = (if fx then Cpr.cprb_make_f else Cpr.cprb_make) sc bs (active / bs) kb junk in
+      show_ops n (A.unblock sc bs kb) ops (fun f -> f) ^ " " ^ show_app_block ~fixed:fx kb ops.Cpr.c_app
     | "update_dummy" ->
       let ops = Cpr.cpr_make sc bs active k junk in
       let before = show_ops n ks ops (fun f -> f) in
@@ -250,9 +252,9 @@ let () =
       (if before = after then "same " else "changed ") ^ after
     | _ -> raise (Model_exc "invalid_argument"));
 
-  (* ---- CPR-DRS: CprDrs.v set-up; update: first_scalar_pass(K, get_app = false) dereferences the
-     null App pointer (cpr_drs.hpp:331) -- no model value *)
-  reg "cprdrs" (fun t -> let kind = t_s t in let bs = t_i t in let active = t_i t in
+  (* ---- CPR-DRS: CprDrs.v set-up; update: in the unchanged code first_scalar_pass(K, get_app = false)
+     dereferences the null App pointer (cpr_drs.hpp:331); the model gives the repaired behaviour *)
+  reg "cprdrs" (fun t -> let kind = t_s t in let bs = t_i t in let active = t_i t in let fx = t_i t <> 0 in
     let eps_dd = t_q t in let eps_ps = t_q t in let w = t_vec t in let k = t_crs t in
     let n = nrows k in
     match kind with
@@ -261,7 +263,14 @@ let () =
       show_ops n (MatOps.sort_rows sc k) ops (fun f -> f) ^ " " ^ show_crs ~sorted:true ops.Cpr.c_app
     | "block" ->
       let kb0 = A.to_gcrs (A.block_adapter sc bs (A.crs_view sc k)) in
-      let ops = CprDrs.drsb_make sc bs (active / bs) kb0 eps_dd eps_ps w in
-      show_ops n (A.unblock sc bs kb0) ops (fun f -> f) ^ " " ^ show_app_block kb0 ops.Cpr.c_app
-    | "update" -> "CRASH null_App"
+      let ops = (if fx then CprDrs.drsb_make_f else CprDrs.drsb_make) sc bs (active / bs) kb0 eps_dd eps_ps w in
+      show_ops n (A.unblock sc bs kb0) ops (fun f -> f) ^ " " ^ show_app_block ~fixed:fx kb0 ops.Cpr.c_app
+    | "update" ->
+      (* the repaired behaviour (the unchanged code crashes before it returns: known finding) *)
+      let ks = MatOps.sort_rows sc k in
+      let ops = CprDrs.drs_make sc bs active k eps_dd eps_ps w in
+      let before = show_ops n ks ops (fun f -> f) in
+      let ops' = CprDrs.drs_partial_update sc bs active ops k eps_dd eps_ps w true in
+      let after = show_ops n ks ops' (fun f -> f) in
+      (if before = after then "same " else "changed ") ^ after
     | _ -> raise (Model_exc "invalid_argument"))
